@@ -35,7 +35,7 @@ func (check) NumCases(tier string) int {
 	if tier == "thorough" {
 		return 400
 	}
-	return 60
+	return 150
 }
 func (check) CaseTimeout() time.Duration { return 10 * time.Minute }
 func (check) CrashIsViolation() bool     { return true }
